@@ -5,6 +5,7 @@ import (
 	"reflect"
 	"runtime"
 	"sort"
+	"strings"
 	"sync"
 
 	eval "github.com/onheap/eval"
@@ -224,7 +225,8 @@ func init() {
 func genC08(c *RunCtx) []*Batch {
 	r := c.R
 	if !raceEnabled {
-		return runRaceChild(c, "C08")
+		runRaceChild(c, "C08")
+		return []*Batch{directiveBatch(c)}
 	}
 	nh := c.N(250, 10000)
 	ops := 0
@@ -361,4 +363,93 @@ func genC08(c *RunCtx) []*Batch {
 	c.ExploreHist["histories"] = nh
 	c.ExploreHist["operations"] = ops
 	return nil
+}
+
+// directiveBatch: parseConfig against the model (initial switches, leading comment lines, resulting switches or error)
+func directiveBatch(c *RunCtx) *Batch {
+	r := c.R
+	b := &Batch{Prop: "C08", Name: "directives", Imports: "Require Import Base Tables Ops Tree Opt Directives DirCorr.", CaseType: "dcase", ChkFn: "chk_dir", OutFn: "out_dir"}
+	spaces := []string{"", " ", "  ", "\t", "\u00a0", "\u3000", " \t "}
+	sp := func() string { return spaces[r.Intn(len(spaces))] }
+	bools := []string{"true", "false", "1", "0", "t", "f", "T", "F", "TRUE", "FALSE", "True", "False", "yes", "", "tru", "2"}
+	names := append(append([]string{}, optNames...), "optimize", "optimize", "debug", "report_event", "infix_notation", "Reordering", "", "fold")
+	n := c.N(1200, 40000)
+	for k := 0; k < n; k++ {
+		init := map[string]bool{}
+		for _, nme := range optNames {
+			if r.Intn(3) == 0 {
+				init[nme] = r.Bool()
+			}
+		}
+		var lines []string
+		for i := 0; i < r.Intn(4); i++ {
+			switch r.Intn(8) {
+			case 0:
+				lines = append(lines, "; an ordinary comment, optimize:false")
+			case 1:
+				lines = append(lines, ";;; three semicolons reordering:false")
+			default:
+				var items []string
+				for j := 0; j < 1+r.Intn(3); j++ {
+					nm := names[r.Intn(len(names))]
+					bv := bools[r.Intn(len(bools))]
+					if r.Intn(12) != 0 && r.Intn(3) != 0 { // mostly valid
+						nm = names[r.Intn(6)]
+						bv = bools[r.Intn(12)]
+					}
+					item := sp() + nm + sp() + ":" + sp() + bv + sp()
+					if r.Intn(25) == 0 {
+						item = nm + bv // no colon
+					}
+					if r.Intn(40) == 0 {
+						item += ":x"
+					}
+					items = append(items, item)
+				}
+				lines = append(lines, sp()+";;;;"+sp()+strings.Join(items, ","))
+			}
+		}
+		src := strings.Join(lines, "\n")
+		if len(lines) > 0 {
+			src += "\n"
+		}
+		// a directive after the first token must be ignored
+		src += "(+ 1 ; ;;;; optimize:false\n 2)\n;;;; reordering:false"
+		conf := eval.NewConfig()
+		for kk, v := range init {
+			conf.CompileOptions[eval.CompileOption(kk)] = v
+		}
+		_, cc, err := eval.VerifParse(conf, src, false)
+		obs := "None"
+		if err == nil {
+			var sw []string
+			for _, nme := range optNames {
+				v, ok := cc.CompileOptions[eval.CompileOption(nme)]
+				sw = append(sw, coqBool(v || !ok))
+			}
+			obs = "Some " + coqList(sw)
+		}
+		var in []string
+		ks := make([]string, 0, len(init))
+		for kk := range init {
+			ks = append(ks, kk)
+		}
+		sort.Strings(ks)
+		for _, kk := range ks {
+			in = append(in, fmt.Sprintf("(%q, %s)", kk, coqBool(init[kk])))
+		}
+		cl := make([]string, len(lines))
+		for i, l := range lines {
+			// the lexer's comment token starts at the ';' (leading blanks are skipped)
+			cl[i] = coqStr(strings.TrimLeft(l, " \t\u00a0\u3000"))
+		}
+		term := fmt.Sprintf("(%s%%string, %s, %s)", coqList(in), coqList(cl), obs)
+		tag := "directives:ok"
+		if err != nil {
+			tag = "directives:error"
+		}
+		b.Cases = append(b.Cases, Case{Term: term, Key: term, Nontrivial: len(lines) > 0, Tags: []string{tag},
+			Sample: map[string]interface{}{"lines": lines, "initial": fmt.Sprint(init), "go": obs}})
+	}
+	return b
 }
